@@ -60,6 +60,21 @@ def run(ctx):
                     ctx.ob("R07.3", key + "/non-admin", False, detail="relay path without an is_admin decision")
                     continue
                 check_subkey_path(ctx, p, key, msgs, ALW, PERM, seen_kinds)
+    # every other entry point (instantiate, migrate, ...) relays nothing
+    for crate in ("cw1_whitelist", "cw1_subkeys"):
+        for ename, fn in sorted(entry_points(ctx.facts, crate).items()):
+            if ename in ("execute", "query"):
+                continue
+            bad = []
+            for p in ctx.summarise(fn):
+                if p.is_err():
+                    continue
+                ents = response_entries(p)
+                if ents is None and any(x[0] == "variant" and x[1].endswith(("CosmosMsg", "BankMsg", "WasmMsg")) for x in __import__("cwa.idioms", fromlist=["walk"]).walk(p.ret)):
+                    bad.append(show(p.ret)[:120])
+                elif ents:
+                    bad += [show(m)[:120] for _, m in ents]
+            ctx.ob("R07.1", "%s::%s dispatches nothing" % (crate, ename), not bad, detail="%s dispatches %s" % (ename, bad[:3]), trivial=True)
     ctx.floor("R07.1", "relaying Ok-paths", relays, 3)
     ctx.floor("R07.4", "permission-checked message kinds", len(seen_kinds), 6)
 
@@ -117,9 +132,18 @@ def check_subkey_path(ctx, p, key, msgs, ALW, PERM, seen_kinds):
         amount = ("vfield", inner, "Send", "amount")
         spends = [e for e in p.effects if e.kind == "write" and e.item == ALW and e.key == SENDER and lk_in(e, p)]
         good = sub == "Send" and len(spends) == 1 and any(x == amount for x in subterms(spends[0].value))
+        why = "Bank::%s relayed for a non-admin without exactly one spend of that message's coins on ALLOWANCES[info.sender]" % sub
+        if good:
+            # the spend must have the checked form of C08 R08.1: atomic update of the *stored* allowance (entry present,
+            # unexpired, balance - coins with the checked subtraction) - a cached or saturating allowance covers nothing
+            from .C08 import check_spend
+            idx = p.effects.index(spends[0])
+            prob = check_spend(p, idx, spends[0])
+            if prob is not None:
+                good = False
+                why = "Bank::Send relayed for a non-admin but the allowance is not checked against the stored value: " + prob
         seen_kinds.add((kind, sub))
-        ctx.ob("R07.3", k2 + "::" + str(sub), good,
-               detail="Bank::%s relayed for a non-admin without exactly one spend of that message's coins on ALLOWANCES[info.sender]" % sub,
+        ctx.ob("R07.3", k2 + "::" + str(sub), good, detail=why, sites=[e.site for e in spends],
                sample={"spend": repr(spends[0])[:240] if spends else None})
     else:
         ctx.ob("R07.3", k2, False, detail="message kind %s has a successful non-admin iteration (must be rejected)" % kind)
